@@ -52,6 +52,7 @@ def run(ctx):
     c09.logical_pair(ctx, 'PRESERVE')
     cyclecheck(ctx)
     state_rule(ctx, rn)
+    object_form_rule(ctx)
 
 
 def rec_sites(rn, fam):
@@ -115,6 +116,26 @@ def resolution_rules(ctx):
     nsarg(ctx, rn, fam)
     namekey(ctx, rn, fam)
     state_rule(ctx, rn)
+
+
+def object_form_rule(ctx):
+    """the specification's object form is {"type": "typeName", ...attributes...} where typeName is a primitive OR a derived
+    (previously defined, named) type: {"type": "Coord"} is a reference to Coord just like the bare string "Coord".  The
+    `type` of a schema object must therefore be able to hold a name that is not one of the built-in type names."""
+    f = ctx.f
+    a = f.adts.get(PM + 'raw::SchemaNodeObject')
+    ok, det = False, 'raw::SchemaNodeObject not found'
+    if a is not None:
+        ty = [fl['ty'] for fl in a['variants'][0]['fields'] if fl['name'] == 'type_']
+        det = 'no type_ field'
+        if ty:
+            import re as _re
+            t0 = _re.sub(r'<.*$', '', ty[0])
+            ta = f.adts.get(t0)
+            closed = ta is not None and all(not v['fields'] for v in ta['variants'])
+            ok = not closed
+            det = 'the `type` of a schema object is parsed as %s, %s' % (ty[0], 'a closed list of the %d built-in type names: a reference there ({"type": "Coord"}) is a parse error' % len(ta['variants']) if closed else 'which can hold a reference')
+    ctx.ob('FORMS', 'object-type-accepts-references', ok, short_loc(a['span']) if a else None, det)
 
 
 def string_forms_rule(ctx):
